@@ -44,6 +44,12 @@ func c11Gen(rng *verifsim.RNG, idx int, tier string) *Plan {
 		p.Faults = append(p.Faults, Fault{Seam: seam, If: "eth0", N: rng.Range(1, 6), Err: []string{"fs.EPERM", "fs.ENOENT", "fs.EIO"}[rng.Intn(3)]})
 		p.Class += "+sysctl-fault"
 	}
+	// the socket is there but one of its set-up calls fails (or creating it does)
+	if rng.Bool(0.25) {
+		step := []string{"listen", "filter", "ctrl", "join"}[rng.Intn(4)]
+		p.Faults = append(p.Faults, Fault{Seam: "sock." + step, If: "eth0", N: rng.Range(1, 4), Count: rng.Range(1, 2), Err: []string{"EPERM", "ENOBUFS", "EINVAL", "opaque"}[rng.Intn(4)]})
+		p.Class += "+socket-setup-fault"
+	}
 	// somebody else changes the sysctl while the daemon holds a connection
 	if rng.Bool(0.15) {
 		p.Actions = append(p.Actions, Action{At: int64(rng.Dur(time.Second, time.Duration(horizon))), Kind: "autoconf", If: "eth0", On: rng.Bool(0.5)})
